@@ -17,6 +17,9 @@ import (
 type Model struct {
 	Root       string // real path of the served root
 	AllowWrite bool
+	// MaskATime: access times are not judged (pipelined bursts: the server runs ahead of
+	// the harness's observations and its own later requests touch access times)
+	MaskATime bool
 
 	cwd   cwdState
 	ro    roState
@@ -82,6 +85,7 @@ type cwdState struct {
 	kind cwdKind
 	dir  string         // real path
 	rem  map[string]int // names not yet reported (valid + dangling are decided at report time)
+	at0  map[string]int64 // access time of each entry as observed when the directory was opened
 	// alt: OPEN_DIR that failed may or may not have kept the previous directory
 	altNone bool
 }
@@ -370,7 +374,13 @@ func (m *Model) openDir(c *Conn, r Req, pr *pre, what string) error {
 			m.cwd = cwdState{kind: cwdUnknown}
 			return nil
 		}
-		m.cwd = cwdState{kind: cwdOpen, dir: real, rem: rem}
+		at0 := map[string]int64{}
+		for name := range rem {
+			if t := entryTruth(real, name); t.ok {
+				at0[name] = t.atimeA
+			}
+		}
+		m.cwd = cwdState{kind: cwdOpen, dir: real, rem: rem, at0: at0}
 	case serr == nil:
 		if res != -1 {
 			return failf("opendir-truth", "%s: non-directory %s accepted as directory", what, clean)
@@ -597,9 +607,12 @@ func (m *Model) readEntry(c *Conn, v2 bool, what string) error {
 		if mtime != t.mtime || ctime != t.ctime {
 			return failf("listing-attrs", "%s: entry %q mtime/ctime %d/%d, truth %d/%d", what, name, mtime, ctime, t.mtime, t.ctime)
 		}
-		t2 := entryTruth(m.cwd.dir, name)
-		if atime != t.atimeA && atime != t2.atimeA && !(atime >= min64(t.atimeA, t2.atimeA)-1 && atime <= max64(t.atimeA, t2.atimeA)+1) {
-			return failf("listing-attrs", "%s: entry %q atime %d, truth %d..%d", what, name, atime, t.atimeA, t2.atimeA)
+		lo, hi := t.atimeA, t.atimeA
+		if a0, ok := m.cwd.at0[name]; ok {
+			lo, hi = min64(lo, a0), max64(hi, a0)
+		}
+		if !m.MaskATime && !(atime >= lo-1 && atime <= hi+1) {
+			return failf("listing-attrs", "%s: entry %q atime %d, truth %d..%d", what, name, atime, lo, hi)
 		}
 	}
 	return nil
@@ -645,7 +658,7 @@ func (m *Model) stat(c *Conn, r Req, pr *pre, what string) error {
 	if aerr == nil {
 		_, _, at2 = StatTimes(after)
 	}
-	if !(atime >= min64(at, at2)-1 && atime <= max64(at, at2)+1) {
+	if !m.MaskATime && !(atime >= min64(at, at2)-1 && atime <= max64(at, at2)+1) {
 		return failf("stat-truth", "%s: %s atime %d, truth %d..%d", what, clean, atime, at, at2)
 	}
 	return nil
